@@ -83,6 +83,9 @@ def build_jobs(tier, rep):
             jobs.append((cfgs[(k // 9) % len(cfgs)], "renderInline", d))
     for k, d in enumerate(gen.sample(l1, 12000 if q else 150000, C.SEED + 1, keep_short=1000)):
         jobs.append((cfgs[k % len(cfgs)], "render", d))
+    for k, d in enumerate(gen.twins(gen.sample(l1, 3000 if q else 40000, C.SEED + 7, keep_short=300) + gen.sample(lm, 3000 if q else 40000, C.SEED + 8),
+                                    C.SEED, per_doc=1)):
+        jobs.append((cfgs[k % len(cfgs)], "render", d))
     for k, d in enumerate(gen.sample(l2, 8000 if q else 150000, C.SEED + 2)):
         jobs.append((cfgs[k % len(cfgs)], "render", d + "\n\n[r]: /u \"t<\"\n"))
     # every inline-fragment document: one representative per distinct tag structure
